@@ -1056,7 +1056,19 @@ type ordVal struct {
 // evalComparator runs fn on two abstract records whose fields are related by rel[field] in {-1,0,1} (record 0 versus record
 // 1; swapped exchanges the roles). sideOf classifies a pointer value as record 0 / 1.
 func evalComparator(fn *ssa.Function, rel map[string]int, sideOf func(v ssa.Value) (int, bool)) (result bool, ok bool) {
-	vals := map[ssa.Value]ordVal{}
+	r, ok := evalComparatorFn(fn, rel, sideOf, map[ssa.Value]ordVal{}, 0)
+	if !ok || r.kind != "bool" {
+		return false, false
+	}
+	return r.b, true
+}
+
+// evalComparatorFn evaluates one function; a call of a module function is evaluated on the values of its arguments (a
+// comparator that delegates to a compare helper is the same comparator).
+func evalComparatorFn(fn *ssa.Function, rel map[string]int, sideOf func(v ssa.Value) (int, bool), vals map[ssa.Value]ordVal, depth int) (ordVal, bool) {
+	if depth > 4 || fn.Blocks == nil {
+		return ordVal{}, false
+	}
 	var eval func(v ssa.Value) (ordVal, bool)
 	eval = func(v ssa.Value) (ordVal, bool) {
 		if r, ok := vals[v]; ok {
@@ -1069,6 +1081,15 @@ func evalComparator(fn *ssa.Function, rel map[string]int, sideOf func(v ssa.Valu
 			}
 			if x.Value != nil && (x.Value.String() == "true" || x.Value.String() == "false") {
 				return ordVal{kind: "bool", b: x.Value.String() == "true"}, true
+			}
+		}
+		// one of the two records: classified by the caller of the evaluator (a parameter, by[i])
+		if s, ok := sideOf(v); ok {
+			return ordVal{kind: "rec", side: s}, true
+		}
+		if ld, ok := v.(*ssa.UnOp); ok && ld.Op == token.MUL {
+			if s, ok := sideOf(ld.X); ok {
+				return ordVal{kind: "rec", side: s}, true
 			}
 		}
 		return ordVal{}, false
@@ -1105,7 +1126,7 @@ func evalComparator(fn *ssa.Function, rel map[string]int, sideOf func(v ssa.Valu
 					if p == prev {
 						r, ok := eval(x.Edges[i])
 						if !ok {
-							return false, false
+							return ordVal{}, false
 						}
 						vals[x] = r
 					}
@@ -1116,17 +1137,13 @@ func evalComparator(fn *ssa.Function, rel map[string]int, sideOf func(v ssa.Valu
 				switch x.Op {
 				case token.MUL:
 					if fa, ok := x.X.(*ssa.FieldAddr); ok {
-						// the record: the field's base, possibly loaded from by[i]
-						base := fa.X
-						if ld, ok := base.(*ssa.UnOp); ok && ld.Op == token.MUL {
-							base = ld.X
-						}
-						if s, ok := sideOf(base); ok {
+						// the record: the field's base, possibly loaded from by[i], possibly a parameter bound by a caller
+						if r, ok := eval(fa.X); ok && r.kind == "rec" {
 							name := fieldAddrName(fa)
 							if i := strings.LastIndex(name, "."); i >= 0 {
 								name = name[i+1:]
 							}
-							vals[x] = ordVal{kind: "field", side: s, field: name}
+							vals[x] = ordVal{kind: "field", side: r.side, field: name}
 							continue
 						}
 					}
@@ -1134,34 +1151,63 @@ func evalComparator(fn *ssa.Function, rel map[string]int, sideOf func(v ssa.Valu
 				case token.NOT:
 					r, ok := eval(x.X)
 					if !ok || r.kind != "bool" {
-						return false, false
+						return ordVal{}, false
 					}
 					vals[x] = ordVal{kind: "bool", b: !r.b}
+				case token.SUB:
+					r, ok := eval(x.X)
+					if !ok || r.kind != "int" {
+						return ordVal{}, false
+					}
+					vals[x] = ordVal{kind: "int", n: -r.n}
 				}
 			case *ssa.Call:
 				if calleeFullName(&x.Call) == "strings.Compare" {
 					a, ok1 := eval(x.Call.Args[0])
 					b, ok2 := eval(x.Call.Args[1])
 					if !ok1 || !ok2 {
-						return false, false
+						return ordVal{}, false
 					}
 					c, ok := cmpFields(a, b)
 					if !ok {
-						return false, false
+						return ordVal{}, false
 					}
 					vals[x] = ordVal{kind: "int", n: int64(c)}
+				} else if g := staticCallee(&x.Call); g != nil && g.Blocks != nil && inModule(g) && !x.Call.IsInvoke() && len(x.Call.Args) == len(g.Params) {
+					inner := map[ssa.Value]ordVal{}
+					for i, a := range x.Call.Args {
+						r, ok := eval(a)
+						if !ok {
+							return ordVal{}, false
+						}
+						inner[g.Params[i]] = r
+					}
+					r, ok := evalComparatorFn(g, rel, func(ssa.Value) (int, bool) { return 0, false }, inner, depth+1)
+					if !ok {
+						return ordVal{}, false
+					}
+					vals[x] = r
 				} else {
-					return false, false
+					return ordVal{}, false
 				}
 			case *ssa.BinOp:
 				a, ok1 := eval(x.X)
 				b, ok2 := eval(x.Y)
 				if !ok1 || !ok2 {
-					return false, false
+					return ordVal{}, false
+				}
+				if x.Op == token.SUB {
+					// the sign of a difference is the comparison of its operands (all that a comparator reads of it)
+					c, ok := cmpFields(a, b)
+					if !ok {
+						return ordVal{}, false
+					}
+					vals[x] = ordVal{kind: "int", n: int64(c)}
+					continue
 				}
 				c, ok := cmpFields(a, b)
 				if !ok {
-					return false, false
+					return ordVal{}, false
 				}
 				var r bool
 				switch x.Op {
@@ -1178,13 +1224,13 @@ func evalComparator(fn *ssa.Function, rel map[string]int, sideOf func(v ssa.Valu
 				case token.NEQ:
 					r = c != 0
 				default:
-					return false, false
+					return ordVal{}, false
 				}
 				vals[x] = ordVal{kind: "bool", b: r}
 			case *ssa.If:
 				r, ok := eval(x.Cond)
 				if !ok || r.kind != "bool" {
-					return false, false
+					return ordVal{}, false
 				}
 				prev = blk
 				if r.b {
@@ -1196,17 +1242,16 @@ func evalComparator(fn *ssa.Function, rel map[string]int, sideOf func(v ssa.Valu
 				prev = blk
 				blk = blk.Succs[0]
 			case *ssa.Return:
-				r, ok := eval(x.Results[0])
-				if !ok || r.kind != "bool" {
-					return false, false
+				if len(x.Results) != 1 {
+					return ordVal{}, false
 				}
-				return r.b, true
+				return eval(x.Results[0])
 			default:
-				return false, false
+				return ordVal{}, false
 			}
 		}
 	}
-	return false, false
+	return ordVal{}, false
 }
 
 func runC02Less(c *Ctx) {
@@ -1324,7 +1369,7 @@ func runC02Less(c *Ctx) {
 // ---- rules written after the seeds of round 6 (letters I, J) were missed ----
 
 func init() {
-	register(&Rule{ID: "C03.MUSTSCAN", Min: 3, Doc: "every function that hands a scalar to the placeholder scan does so on every path on which the scalar exists", Run: runC03MustScan})
+	register(&Rule{ID: "C03.MUSTSCAN", Min: 20, Doc: "every function that hands a scalar to the placeholder scan does so on every path on which the scalar exists; further up, no hand-over towards the scan is conditional on a test of the scalar's own text", Run: runC03MustScan})
 	register(&Rule{ID: "C06.JSONMERGE", Min: 1, Doc: "the element types of a JSON array literal are merged unconditionally", Run: runC06JSONMerge})
 	register(&Rule{ID: "C09.CYCLESTART", Min: 1, Doc: "the job at which a cycle is reported is chosen among the jobs of the cycle by position, not by where the search entered it", Run: runC09CycleStart})
 	register(&Rule{ID: "C14.REQDECODE", Min: 2, Doc: "`required` of a metadata input is decoded as a YAML boolean, not compared as text", Run: runC14ReqDecode})
@@ -1337,7 +1382,7 @@ func init() {
 
 func runC03MustScan(c *Ctx) {
 	p := c.P
-	scan := p.Method("RuleExpression", "checkExprsIn")
+	scan := c03ScanFunc(p)
 	if scan == nil {
 		c.anchorMissing("(*RuleExpression).checkExprsIn")
 		return
@@ -1352,7 +1397,12 @@ func runC03MustScan(c *Ctx) {
 		seen[fn] = true
 		n++
 		construct := FuncName(fn) + "|scan on every path"
-		calls := findCalls(fn, "(*RuleExpression).checkExprsIn")
+		var calls []ssa.CallInstruction
+		eachInstr(fn, func(_ *ssa.BasicBlock, _ int, in ssa.Instruction) {
+			if call, ok := in.(ssa.CallInstruction); ok && staticCallee(call.Common()) == scan {
+				calls = append(calls, call)
+			}
+		})
 		// blocks from which a return is reached without passing a call; conditions allowed on such paths: nil tests of a
 		// parameter (no scalar)
 		stop := map[*ssa.BasicBlock]bool{}
@@ -1394,6 +1444,8 @@ func runC03MustScan(c *Ctx) {
 	if n == 0 {
 		c.anchorMissing("callers of checkExprsIn")
 	}
+	// the callers of those callers, up to the visitor methods: no hand-over is filtered by the text of what is handed over
+	c03TextGuards(c)
 }
 
 func runC06JSONMerge(c *Ctx) {
